@@ -400,7 +400,10 @@ class CornerInterface(BasicDomain):
     """
     def __new__(cls, *corners):
         assert all(isinstance(i, CornerBoundary) for i in corners)
-        corners = sorted(corners, key=lambda x:x.domain.name)
+        # a canonical order: by patch, then by the (axis, ext) of the faces. Sorting by the patch name
+        # alone left two corners of the same patch (a patch closed periodically on itself) in the order
+        # in which Domain.get_shared_corners happened to walk around the corner, which depends on set.pop()
+        corners = sorted(corners, key=lambda x: (x.domain.name, tuple((b.axis, b.ext) for b in x.boundaries)))
         return Basic.__new__(cls, *corners)
 
     @property
